@@ -550,15 +550,85 @@ example : reqTime (runEv (exEvs.take 2)) false = 10 ∧ reqTime (runEv (exEvs.ta
     reqTime (runEv exEvs) false = 10 ∧ reqTime (runEv exEvs) true = 0 ∧
     lastApplied exEvs.reverse = 10 := by decide
 
+/-! ### Production wiring: the refresh contexts and the start of the process (`internal/cmd`) -/
+
+/-- **backend_timeout_spec.** A request to the backend made under the context the builder creates
+for `backend.timeout` is answered iff the timeout is zero ("Set to `0s` to disable timeouts") or
+the answer arrives within the timeout — for every instant and every latency. -/
+theorem backend_timeout_spec (timeout now latency : Nat) :
+    answered (ctxDeadline timeout now) now latency = true ↔ timeout = 0 ∨ latency < timeout := by
+  unfold ctxDeadline answered
+  by_cases h : timeout = 0
+  · simp [h]
+  · simp [h]
+
+/-- **backend_timeout_zero_counterexample.** The builder of the pinned tree
+(`context.WithTimeout(parent, timeout)` for every value): with the documented `timeout: 0s` NO
+request is ever answered, however fast the backend — no synchronisation ever happens; the repaired
+constructor answers every one. -/
+theorem backend_timeout_zero_counterexample :
+    (∀ now latency, answered (ctxDeadlineOld 0 now) now latency = false) ∧
+    (∀ now latency, answered (ctxDeadline 0 now) now latency = true) := by
+  refine ⟨fun now latency => ?_, fun now latency => ?_⟩
+  · simp [ctxDeadlineOld, answered]
+  · simp [ctxDeadline, answered]
+
+/-- **start_initial_refresh_spec.** One start of the process (`profiledb.New` on the cache file,
+then the initial refresh under the configured timeout) after ANY history: the database holds the
+backend's answer applied to what the cache file gave iff `timeout = 0` or the backend answered
+within the timeout; otherwise it holds exactly what the cache file gave (and goes on serving it). -/
+theorem start_initial_refresh_spec (evs : List Ev) (v timeout latency : Nat) (full : Bool) (t : Nat)
+    (ps : List Profile) (ds : List Device) :
+    runEv (evs ++ startEvs ctxDeadline v timeout latency full t ps ds) =
+      if timeout = 0 ∨ latency < timeout
+      then applySync (loadCache v (runEv evs).cache) full t ps ds
+      else loadCache v (runEv evs).cache := by
+  have h := backend_timeout_spec timeout 0 latency
+  by_cases hc : timeout = 0 ∨ latency < timeout
+  · have ha : answered (ctxDeadline timeout 0) 0 latency = true := h.mpr hc
+    simp [runEv, startEvs, List.foldl_append, stepEv, step, ha, hc]
+  · have ha : answered (ctxDeadline timeout 0) 0 latency = false := by
+      cases hb : answered (ctxDeadline timeout 0) 0 latency
+      · rfl
+      · exact absurd (h.mp hb) hc
+    simp [runEv, startEvs, List.foldl_append, stepEv, step, ha, hc]
+
+/-- **start_timeout_zero_old_never_syncs.** With the old constructor and `timeout: 0s` every start,
+after any history and against a backend of any speed, ends with the cache content only. -/
+theorem start_timeout_zero_old_never_syncs (evs : List Ev) (v latency : Nat) (full : Bool) (t : Nat)
+    (ps : List Profile) (ds : List Device) :
+    runEv (evs ++ startEvs ctxDeadlineOld v 0 latency full t ps ds) = loadCache v (runEv evs).cache := by
+  simp [runEv, startEvs, List.foldl_append, stepEv, step, ctxDeadlineOld, answered]
+
+/-- Non-vacuity: a backend that needs 3 time units is answered under `timeout: 0s` and under
+`timeout: 5`, not under `timeout: 2`; the old constructor answered nothing under `0s`. -/
+example : answered (ctxDeadline 0 100) 100 3 = true ∧ answered (ctxDeadline 5 100) 100 3 = true ∧
+    answered (ctxDeadline 2 100) 100 3 = false ∧ answered (ctxDeadlineOld 0 100) 100 0 = false := by decide
+
+/-- **needs_full_sync_spec.** The kind of the next synchronisation: after a failed attempt at a full
+one it is full iff the retry interval has passed since that failure, otherwise iff the full
+interval has passed since the last full synchronisation (or the sync time of the cache loaded at
+start); a process without either (`sinceFull` = the age of the zero time) always starts with a
+full one. -/
+theorem needs_full_sync_spec (fullIvl retryIvl sinceFull : Int) (sinceErr : Option Int) :
+    needsFullSync fullIvl retryIvl sinceFull sinceErr = true ↔
+      (sinceErr = none ∧ fullIvl ≤ sinceFull) ∨ (∃ e, sinceErr = some e ∧ retryIvl ≤ e) := by
+  cases sinceErr with
+  | none => simp [needsFullSync]
+  | some e => simp [needsFullSync]
+
+example : needsFullSync 3600 60 9223372036 none = true ∧ needsFullSync 3600 60 10 none = false ∧
+    needsFullSync 3600 60 10 (some 61) = true ∧ needsFullSync 3600 60 99999 (some 5) = false := by decide
+
 end Agd.ProfileDB
 
 namespace Agd.ProfileCache
 
 /-- Caches as the backend converter produces them: canonical authentication settings (see
 `CanonAuth`) and addresses that are `netip.Addr` values (4 or 16 bytes; any zone). -/
-def Canon (c : Cache) : Prop :=
+def Canon (est : Nat) (c : Cache) : Prop :=
   (∀ d ∈ c.devices, CanonAuth d.auth ∧ d.linked.WF ∧ ∀ a ∈ d.dedicated, a.WF) ∧
-  (∀ p ∈ c.profiles, BmWF p.blockingMode)
+  (∀ p ∈ c.profiles, BmWF p.blockingMode ∧ p.ratelimiter.EstIs est)
 
 /-- **addr_codec_roundtrip.** The binary form the cache stores for a linked, dedicated or custom
 blocking address reads back as the same address: zero value, IPv4, IPv6, IPv4-mapped IPv6 and ANY
@@ -600,10 +670,10 @@ example : exZoned.WF ∧ exMapped.WF ∧
 sync time, version, and every field of every profile and device (all combinations of schedule /
 access / blocking mode / rate limiter / authentication variants, any TTL, any 16-bit day interval,
 linked, dedicated and custom blocking addresses of every family with any zone). -/
-theorem filecache_roundtrip (c : Cache) (h : Canon c) : fromPb (toPb c) = some c := by
+theorem filecache_roundtrip (est : Nat) (c : Cache) (h : Canon est c) : fromPb est (toPb c) = some c := by
   obtain ⟨ss, sn, ps, ds, v⟩ := c
   obtain ⟨hd, hp⟩ := h
-  have h1 := optAll_rt profileToPb profileFromPb ps (fun p hm => profile_rt p (hp p hm))
+  have h1 := optAll_rt profileToPb (profileFromPb est) ps (fun p hm => profile_rt est p (hp p hm).1 (hp p hm).2)
   have h2 := optAll_rt deviceToPb deviceFromPb ds
     (fun d hm => device_rt d (hd d hm).1 (hd d hm).2.1 (hd d hm).2.2)
   simp only [fromPb, toPb, h1, h2]
@@ -612,7 +682,7 @@ def exAuthDevice : Device :=
   { auth := { enabled := true, dohOnly := true, pw := .allow }, id := 1, linked := exZoned, name := 3,
     human := 4, dedicated := [exMapped, .v4 [198, 51, 100, 7]], filtering := true }
 
-example : Canon { syncSec := -5, syncNsec := 7, profiles := [], devices := [exAuthDevice], version := 15 } := by
+example : Canon 1024 { syncSec := -5, syncNsec := 7, profiles := [], devices := [exAuthDevice], version := 15 } := by
   refine ⟨?_, ?_⟩
   · intro d hd
     simp at hd
@@ -620,6 +690,14 @@ example : Canon { syncSec := -5, syncNsec := 7, profiles := [], devices := [exAu
     decide
   · intro p hp
     simp at hp
+
+/-- Every limiter the `backendpb` converter makes carries the estimate its storage was created
+with. -/
+theorem backendRate_estIs (est : Nat) (w : Option WireRate) : (backendRate est w).EstIs est := by
+  cases w with
+  | none => trivial
+  | some x =>
+    cases h : x.enabled <;> simp [backendRate, h, Ratelimiter.EstIs]
 
 /-- **backend_values_canon.** Whatever the backend sends, the authentication settings that
 `backendpb` makes of it are canonical — the hypothesis of `filecache_roundtrip` is a property of
@@ -642,10 +720,11 @@ zoned ones included) is read back unchanged — no assumption on the values left
 and access settings need no canonical form: `agd.DefaultRatelimiter` does not keep an enabled flag
 and `backendpb` maps absent or disabled settings to the global limiter / the empty access
 profile.) -/
-theorem backend_cache_roundtrip (c : Cache)
+theorem backend_cache_roundtrip (est : Nat) (c : Cache)
     (hd : ∀ d ∈ c.devices, (∃ w, d.auth = backendAuth w) ∧ FromWire d.linked ∧ ∀ a ∈ d.dedicated, FromWire a)
-    (hp : ∀ p ∈ c.profiles, ∀ v4 v6, p.blockingMode = .customIP v4 v6 → ∀ a ∈ v4 ++ v6, FromWire a) :
-    fromPb (toPb c) = some c := by
+    (hp : ∀ p ∈ c.profiles, ∀ v4 v6, p.blockingMode = .customIP v4 v6 → ∀ a ∈ v4 ++ v6, FromWire a)
+    (hr : ∀ p ∈ c.profiles, ∃ w, p.ratelimiter = backendRate est w) :
+    fromPb est (toPb c) = some c := by
   apply filecache_roundtrip
   refine ⟨?_, ?_⟩
   · intro d hm
@@ -653,14 +732,18 @@ theorem backend_cache_roundtrip (c : Cache)
     refine ⟨?_, fromWire_wf _ hl, fun a ha => fromWire_wf _ (hde a ha)⟩
     rw [hw]; exact backend_values_canon w
   · intro p hm
-    cases hbm : p.blockingMode with
-    | customIP v4 v6 =>
-      have := hp p hm v4 v6 hbm
-      exact ⟨fun a ha => fromWire_wf _ (this a (List.mem_append_left _ ha)),
-             fun a ha => fromWire_wf _ (this a (List.mem_append_right _ ha))⟩
-    | nxdomain => trivial
-    | nullIP => trivial
-    | refused => trivial
+    refine ⟨?_, ?_⟩
+    · cases hbm : p.blockingMode with
+      | customIP v4 v6 =>
+        have := hp p hm v4 v6 hbm
+        exact ⟨fun a ha => fromWire_wf _ (this a (List.mem_append_left _ ha)),
+               fun a ha => fromWire_wf _ (this a (List.mem_append_right _ ha))⟩
+      | nxdomain => trivial
+      | nullIP => trivial
+      | refused => trivial
+    · obtain ⟨w, hw⟩ := hr p hm
+      rw [hw]
+      exact backendRate_estIs est w
 
 /-- Non-vacuity: a 20-byte linked IP from the wire is the zoned address, and such a device
 satisfies the hypotheses of `backend_cache_roundtrip`. -/
@@ -669,10 +752,10 @@ example : Addr.unmarshal exZoned.marshal = some exZoned ∧ FromWire exZoned ∧
   ⟨by decide, ⟨exZoned.marshal, by decide⟩, ⟨exMapped.marshal, by decide⟩, ⟨[198, 51, 100, 7], by decide⟩,
    ⟨[], by decide⟩⟩
 
-example : backendRate (some { enabled := false, rps := 5, cidr := [(1, 24)] }) = .global ∧
-    backendRate (some { enabled := true, rps := 5, cidr := [(1, 24)] }) = .default [(1, 24)] 5 ∧
-    ratelimiterFromPb (ratelimiterToPb (backendRate (some { enabled := true, rps := 5, cidr := [(1, 24)] }))) =
-      .default [(1, 24)] 5 ∧
+example : backendRate 1024 (some { enabled := false, rps := 5, cidr := [(1, 24)] }) = .global ∧
+    backendRate 1024 (some { enabled := true, rps := 5, cidr := [(1, 24)] }) = .default [(1, 24)] 5 1024 ∧
+    ratelimiterFromPb 1024 (ratelimiterToPb (backendRate 1024 (some { enabled := true, rps := 5, cidr := [(1, 24)] }))) =
+      .default [(1, 24)] 5 1024 ∧
     backendAccess (some { enabled := false, cfg := ⟨[], [], [1], [], []⟩ }) = none ∧
     backendAuth (some { dohOnly := true, pw := .unset }) = { enabled := true, dohOnly := true, pw := .allow } := by
   decide
@@ -728,6 +811,31 @@ example : (killedAfter { target := some [9], temp := none } [[1, 2], [3]] 2).tar
     (killedAfter { target := some [9], temp := none } [[1, 2], [3]] 5).target = some [1, 2, 3] := by
   decide
 
+/-- **restored_limiter_counts_alike.** A custom rate limiter read back from the cache by a storage
+that was created with the estimate the limiter was built with counts every response as the
+original does (and `CountResponses` panics for neither or both). -/
+theorem restored_limiter_counts_alike (est : Nat) (r : Ratelimiter) (h : r.EstIs est) (len : Nat) :
+    (ratelimiterFromPb est (ratelimiterToPb r)).countedAs len = r.countedAs len := by
+  rw [ratelimiter_rt est r h]
+
+/-- **estimate_wiring_necessary.** The cache file does not hold the estimate: read back by a storage
+created with ANOTHER estimate, a custom limiter is a different limiter — the builder must hand the
+same `response_size_estimate` to the backend storage and to the database (it does:
+`builder_estimate_wiring_src`). -/
+theorem estimate_wiring_necessary (est est' : Nat) (h : est ≠ est') (sn : List (Nat × Nat)) (rps : Nat) :
+    ratelimiterFromPb est' (ratelimiterToPb (.default sn rps est)) ≠ .default sn rps est := by
+  simp [ratelimiterFromPb, ratelimiterToPb]
+  exact fun h' => h h'.symm
+
+/-- Non-vacuity and sensitivity: with the estimate 1024 on both sides a 3395-byte response counts as
+3 requests before and after the restart; an estimate lost on the way (0) makes `CountResponses`
+panic, one taken in the wrong unit (1024 × 1024) counts nothing. -/
+example : (Ratelimiter.default [] 100 1024).countedAs 3395 = some 3 ∧
+    (ratelimiterFromPb 1024 (ratelimiterToPb (.default [] 100 1024))).countedAs 3395 = some 3 ∧
+    (ratelimiterFromPb 0 (ratelimiterToPb (.default [] 100 1024))).countedAs 3395 = none ∧
+    (ratelimiterFromPb 1048576 (ratelimiterToPb (.default [] 100 1024))).countedAs 3395 = some 0 ∧
+    (Ratelimiter.default [] 100 1024).passesAfter 3395 130 = some 97 := by decide
+
 end Agd.ProfileCache
 
 #print axioms Agd.ProfileDB.lookup_refines_spec
@@ -750,6 +858,11 @@ end Agd.ProfileCache
 #print axioms Agd.ProfileDB.request_time_no_gap
 #print axioms Agd.ProfileDB.lookups_track_backend
 #print axioms Agd.ProfileDB.version_mismatch_ignored
+#print axioms Agd.ProfileDB.backend_timeout_spec
+#print axioms Agd.ProfileDB.backend_timeout_zero_counterexample
+#print axioms Agd.ProfileDB.start_initial_refresh_spec
+#print axioms Agd.ProfileDB.start_timeout_zero_old_never_syncs
+#print axioms Agd.ProfileDB.needs_full_sync_spec
 #print axioms Agd.ProfileCache.addr_codec_roundtrip
 #print axioms Agd.ProfileCache.addr_codec_injective
 #print axioms Agd.ProfileCache.addr_decode_canonical
@@ -757,6 +870,9 @@ end Agd.ProfileCache
 #print axioms Agd.ProfileCache.filecache_auth_counterexample
 #print axioms Agd.ProfileCache.backend_values_canon
 #print axioms Agd.ProfileCache.backend_cache_roundtrip
+#print axioms Agd.ProfileCache.backendRate_estIs
+#print axioms Agd.ProfileCache.restored_limiter_counts_alike
+#print axioms Agd.ProfileCache.estimate_wiring_necessary
 #print axioms Agd.ProfileCache.load_decision_spec
 #print axioms Agd.ProfileCache.store_kill_old_or_new
 #print axioms Agd.Tie.TrC14.translation_complete
@@ -766,3 +882,8 @@ end Agd.ProfileCache
 #print axioms Agd.Tie.TrC14.device_cleanup_revalidates
 #print axioms Agd.Tie.TrC14.humanID_cleanup_revalidates
 #print axioms Agd.Tie.TrC14.humanID_cleanup_no_device
+#print axioms Agd.Tie.TrC14.ctx_zero_timeout_has_no_deadline
+#print axioms Agd.Tie.TrC14.ctx_matches_model
+#print axioms Agd.Tie.TrC14.initProfDB_spec
+#print axioms Agd.Tie.TrC14.needsFullSync_tr
+#print axioms Agd.Tie.TrC14.loadFileCache_spec
